@@ -159,6 +159,11 @@ func (s *DHSession) Parameter(rand io.Reader, _ *rsa.PublicKey) ([]byte, error) 
 // SetParameter sets the received parameter from the client. This method is only called by a
 // server.
 func (s *DHSession) SetParameter(xB []byte, _ *rsa.PrivateKey) error {
+	if s.a == nil {
+		// Parameter was never called, the exchange already completed, or the
+		// session was restored from a state whose private parameter was zero
+		return fmt.Errorf("session has no private key exchange parameter")
+	}
 	s.xB = new(big.Int).SetBytes(xB)
 
 	// Compute session key
